@@ -77,7 +77,7 @@ Seeds  == {"s1", "s2", "zero", "neg", "dflt"} \* two positive seeds, 0, a negati
 Modes  == {0, 1, 4, 7, 20, 25}                \* 0 = undefined, 25 = beyond the last mode
 Levels == {-1, 0, 1, 9}
 Wins   == {"none", "ok", "inv"}               \* no window / 0.5..2.0 MeV / 2.0..1.0 MeV
-Mdls   == {"off", "on"}
+Mdls   == {"off", "on", "rect"}   \* rect: momentum-direction lock with the rectangular cut (second half-angle)
 
 ConfigSpace == [cat : Cats, nuc : Nucs, seed : Seeds, mode : Modes, level : Levels, win : Wins, mdl : Mdls]
 
